@@ -1,6 +1,7 @@
 """C12 - traffic only goes to eligible backends (structural clauses)."""
 import alias, bounds, cover, guards, lib
 from mir import callee_of, op_place, op_local, pl_local, proj_fields
+from mir import op_const as mir_const
 
 BK = "sozu_lib::backends::Backend"
 BL = "sozu_lib::backends::BackendList"
@@ -37,7 +38,12 @@ def run(F, chk):
     ra = chk.rule("R-C12-a", "T12", "candidate vectors come from the eligibility filters", floor=4)
     sites = [x for x in F.call_sites(LB_NEXT) if x[0].path.startswith(BL)]
     ra.require(len(sites) >= 2, "fewer than 2 calls of LoadBalancingAlgorithm::next_available_backend in BackendList")
-    for b, bi, t in sites:
+    flat_sites = []
+    for path in sorted({x[0].path for x in sites}):
+        fb = lib.flat(F, F.body(path), keep=(BL + "::available_backends",))
+        flat_sites += [(fb, bi, t) for bi, t in fb.calls() if LB_NEXT in (t.get("fn"), t.get("res"))]
+    ra.require(len(flat_sites) >= len(sites), "call sites lost while splicing helpers")
+    for b, bi, t in flat_sites:
         ra.fn(b.path)
         arg = t["args"][-1]
         T = bounds.Terms(b)
@@ -70,6 +76,8 @@ def run(F, chk):
             elif c.endswith("Iterator::collect") or c.endswith("::collect"):
                 sl = b.slice_back([op_local(d[3]["args"][0])])
                 clos = [x for x in F.family(b.path) if x != b.path]
+                for fn_, _, _, _ in b.inl:          # closures of spliced-in helpers belong to this function now
+                    clos += [x for x in F.family(fn_) if x != fn_]
                 okc = False
                 for cl in clos:
                     flds, calls = closure_reads_calls(F, cl)
@@ -120,8 +128,34 @@ def run(F, chk):
             rb.ok(key, cb.where(somes[0][0]), "Some(backend) only on the can_open()==true edge")
         else:
             rb.violation(key, cb.where(somes[0][0]), "find_sticky can return a backend without passing the can_open()==true edge")
-    rb.require(done, "find_sticky: no closure returning Some found")
-    nk = F.body(BL + "::next_available_backend_with_key")
+    if not done:
+        # the same test written as a filter predicate: a bool closure whose result IS can_open(), handed to
+        # Option::filter / Iterator::filter inside find_sticky
+        fsb = F.body(fs)
+        filt = [t for _, t in fsb.calls() if callee_of(t).endswith("::filter")]
+        for cl in F.family(fs)[1:]:
+            cb = F.body(cl)
+            cc = [(bi, t) for bi, t in cb.calls() if callee_of(t) == BK + "::can_open"]
+            if not cc or cb.locals[0] != "bool":
+                continue
+            rb.fn(cl)
+            done = True
+            key = "%s|Some behind can_open" % cl
+            sl = cb.slice_back([0])
+            passed = any(any(x.get("ty", "").find(cl.split("::")[-1]) >= 0 or True for x in t["args"]) for t in filt)
+            # every value the closure can return is the call's result (no constant `true`)
+            rets = [d for d in cb.defs().get(0, []) if d[2] in ("assign", "call")]
+            only_call = all((d[2] == "call" and callee_of(d[3]) == BK + "::can_open") or
+                            (d[2] == "assign" and d[3]["k"] == "use" and op_local(d[3]["a"]) is not None and
+                             BK + "::can_open" in cb.slice_back([op_local(d[3]["a"])])["callees"]) or
+                            (d[2] == "assign" and d[3]["k"] == "use" and mir_const(d[3]["a"]) == 0)
+                            for d in rets)
+            if filt and rets and only_call:
+                rb.ok(key, cb.where(cc[0][0]), "filter predicate returns can_open() (or false)")
+            else:
+                rb.violation(key, cb.where(cc[0][0]), "find_sticky can return a backend without can_open() having held")
+    rb.require(done, "find_sticky: no closure testing can_open found")
+    nk = lib.flat(F, F.body(BL + "::next_available_backend_with_key"), keep=(BL + "::available_backends",))
     rb.fn(nk.path)
     avs = [(bi, t) for bi, t in nk.calls() if callee_of(t) == BL + "::available_backends"]
     empt_true = call_atom_edges(nk, "Vec::<T, A>::is_empty", True)
@@ -201,6 +235,23 @@ def run(F, chk):
                     rf.ok(key, b.where(bi, si), "raw subtraction behind a `> 0` edge on the same field")
                 else:
                     rf.violation(key, b.where(bi, si), "raw `-` on %s.%s without a dominating `> 0` test of that field: the counter can underflow (panic in debug, wrap in release)" % (adt.split("::")[-1], fld))
+            # the other accepted form of a decrement: x = x.saturating_sub(n) / checked_sub(n) on the same field
+            for bi, t in b.calls():
+                c = callee_of(t)
+                if not (c.endswith("::saturating_sub") or c.endswith("::checked_sub") or c.endswith("::wrapping_sub")):
+                    continue
+                if not t["args"]:
+                    continue
+                sl = guards.slice_of_operand(b, t["args"][0])
+                if (adt, fld) not in sl["fields"]:
+                    continue
+                n += 1
+                rf.fn(b.path)
+                key = "%s|%s -= #%d" % (b.path, fld, n)
+                if c.endswith("::wrapping_sub"):
+                    rf.violation(key, b.where(bi), "wrapping decrement of %s.%s: the counter wraps below zero" % (adt.split("::")[-1], fld))
+                else:
+                    rf.ok(key, b.where(bi), "decrement through %s" % c.split("::")[-1], nontrivial=False)
     # ---------------- R-C12-d -----------------------------------------------
     rd = chk.rule("R-C12-d", "T3+T4", "backends list mutations are followed by a load-balancer rebuild", floor=2)
     MUT = ("::push", "::retain", "::remove", "::clear", "::swap_remove", "::insert", "::truncate", "::drain", "::pop")
